@@ -297,7 +297,7 @@ def configs(tier):
     out.append(dict(case='interpolate', method='cosine', n_cond=3, n_basis=3, n_rdm=1))
     out.append(dict(case='interpolate', method='cosine', n_cond=3, n_basis=2, n_rdm=2))
     if not quick:
-        out.append(dict(case='interpolate', method='cosine', n_cond=4, n_basis=3, n_rdm=1, pattern_idx=[0, 1, 3]))
+        out.append(dict(case='interpolate', method='cosine', n_cond=4, n_basis=3, n_rdm=1))
         out.append(dict(case='interpolate', method='cosine', n_cond=3, n_basis=4, n_rdm=1))
         out.append(dict(case='interpolate', method='corr', n_cond=3, n_basis=3, n_rdm=1))
     for cls in ['ModelFixed', 'ModelSelect', 'ModelWeighted', 'ModelInterpolate']:
